@@ -308,7 +308,7 @@ func call(fn *ssa.Function, args []value, free []value) value {
 	if r, ok := intrinsic(name, fn, args, free); ok {
 		return r
 	}
-	if memoList[name] && !cfg.NoMemo {
+	if (memoList[name] || strings.HasPrefix(fn.Name(), "vTable")) && !cfg.NoMemo {
 		if r, ok := memoCall(name, fn, args, free); ok {
 			return r
 		}
